@@ -42,6 +42,10 @@ type sEvent struct {
 	Arg  json.RawMessage `json:"arg"`
 	Env  sEnv            `json:"env"`
 	Cfg  *NodeCfg        `json:"cfg"`
+	// behaviours of spec/MC_Sync.tla (fault-free synchronous run of one node): the premises of C08 hold
+	Sync   bool   `json:"sync"`
+	Target uint32 `json:"target"`
+	Done   bool   `json:"done"`
 }
 
 // fixedNonce makes the library draw exactly the nonce the specification chose.
@@ -151,8 +155,9 @@ func runScript(out *TraceWriter, path string, from, runs int) {
 				faulty = append(faulty, v)
 			}
 		}
-		out.Write(RunStart{Call: "RunStart", Run: run, Seed: 0, Driver: "script", Nodes: ids, Faulty: faulty,
-			Params: map[string]any{"events": len(evs), "n0": evs[0].Env.Ledger.NVals, "myIndex": evs[0].Env.Ledger.MyIndex}})
+		out.Write(RunStart{Call: "RunStart", Run: run, Seed: 0, Driver: "script", Nodes: ids, Faulty: faulty, Sync: evs[0].Sync,
+			Params: map[string]any{"events": len(evs), "n0": evs[0].Env.Ledger.NVals, "myIndex": evs[0].Env.Ledger.MyIndex,
+				"h0": evs[0].Env.Ledger.Height, "tpb": evs[0].Cfg.Tpb, "maxTpb": evs[0].Cfg.MaxTpb, "delayMax": evs[0].Cfg.Tpb}})
 		for _, e := range evs {
 			c.Clk.Now = e.Env.Now
 			id := 500
@@ -171,6 +176,9 @@ func runScript(out *TraceWriter, path string, from, runs int) {
 				c.Nodes = append(c.Nodes, n)
 				c.byID[id] = n
 			}
+			// the application's ledger is whatever the specification's environment says it is for this call
+			vals = e.Env.Ledger.Vals
+			n.Height, n.TipHash, n.TipTs = e.Env.Ledger.Height, H(e.Env.Ledger.Tip), e.Env.Ledger.TipTs
 			n.Known = map[H]Tx{}
 			for _, t := range e.Env.Known {
 				n.Known[H(t)] = Tx(t)
@@ -189,6 +197,8 @@ func runScript(out *TraceWriter, path string, from, runs int) {
 			switch e.Call {
 			case "Start":
 				c.Emit(n.Start())
+			case "Reset":
+				c.Emit(n.Reset())
 			case "OnReceive":
 				var r PRec
 				if err := json.Unmarshal(e.Arg, &r); err != nil {
@@ -206,6 +216,15 @@ func runScript(out *TraceWriter, path string, from, runs int) {
 			case "OnNewTransaction":
 				c.Emit(n.NewTransaction())
 			}
+		}
+		if last := evs[len(evs)-1]; evs[0].Sync && last.Done {
+			// the specification says this synchronous run is complete: every live node must have decided up to the target
+			end := RunEnd{Call: "RunEnd", Run: run, Now: c.Clk.Now, Target: evs[0].Target, Heights: [][]int{}, Live: []int{}}
+			for _, n := range c.Nodes {
+				end.Heights = append(end.Heights, []int{n.ID, int(n.Height)})
+				end.Live = append(end.Live, n.ID)
+			}
+			out.Write(end)
 		}
 	}
 }
